@@ -238,7 +238,10 @@ def main(argv=None):
     for k in sorted(undecided):
         lines.append('UNDECIDED: %s/%s (%d paths) budget=%ss' % (prop, k, len(undecided[k]), rep['budget']))
     # ledger: clauses proved on the reference tree
-    proved_now = sorted(k for k in by_clause if k not in failed and k not in undecided)
+    # the ledger pins contract clauses (not path-dependent side obligations such as no-escape.* or
+    # call-site / bit-range conditions, whose presence depends on which paths exist)
+    stable = set(clause_key(o) for o in proofs if o.kind in ('post', 'raise-post', 'lemma', 'hint', 'cases'))
+    proved_now = sorted(k for k in by_clause if k in stable and k not in failed and k not in undecided)
     if a.update_ledger:
         os.makedirs(os.path.dirname(ledger_path), exist_ok=True)
         json.dump({'proved': proved_now}, open(ledger_path, 'w'), indent=1)
